@@ -109,6 +109,9 @@ def build_schema(spec, coerce_off=()):
                                   coerce=mi.get("coerce", False), strict=mi.get("strict", False))
             if spec.get("entry") == "mindex":  # the component itself validates the frames (MultiIndex.validate)
                 return index
+        if spec.get("dtype"):  # a schema that only declares a dataframe-level dtype (components are made per data column)
+            return pa.DataFrameSchema(dtype=_pd_dtype(spec["dtype"]), coerce=spec.get("coerce", False),
+                                      checks=[_check(k, be) for k in spec.get("checks", [])])
         return pa.DataFrameSchema(
             cols, checks=[_check(k, be) for k in spec.get("checks", [])], index=index,
             coerce=spec.get("coerce", False), strict=spec.get("strict", False), ordered=spec.get("ordered", False),
@@ -181,6 +184,8 @@ def build_data(call):
 
         obj_cols = set(d.get("object_cols") or [])  # columns built with dtype=object whatever they hold
         df = pd.DataFrame({k: (pd.Series(list(v), dtype=object) if k in obj_cols else list(v)) for k, v in d["cols"].items()})
+        if d.get("int_labels"):  # digit-string keys stand for integer labels
+            df.columns = [int(k) if str(k).isdigit() else k for k in df.columns]
         if d.get("index") is not None:
             df.index = pd.Index(list(d["index"]))
         if d.get("series"):  # the first column as a Series (SeriesSchema entry)
@@ -227,6 +232,9 @@ class Objects:
             kw["head"] = c["head"]
         if c.get("tail") is not None:
             kw["tail"] = c["tail"]
+        if c.get("sample") is not None:
+            kw["sample"] = c["sample"]
+            kw["random_state"] = c.get("random_state")
         if c.get("inplace"):
             kw["inplace"] = True
         depth = force_depth or c.get("ctx")
